@@ -182,6 +182,13 @@ def gen_ir(g, rng, cov, n_modules=None, entry_later=False, with_aux=True):
             else:
                 lab = g.Edge.Label(rng.choice(T), rng.random() < 0.5, rng.random() < 0.5)
             ir.cfg.add(g.Edge(rng.choice(all_cfg), rng.choice(all_cfg), lab))
+        # parallel edges: same endpoints, different labels (incl. None next to a label)
+        for e in list(ir.cfg):
+            if rng.random() < 0.35:
+                lab2 = rng.choice([None, g.Edge.Label(rng.choice(T), rng.random() < 0.5, rng.random() < 0.5), g.Edge.Label(rng.choice(T), False, False)])
+                if lab2 != e.label:
+                    ir.cfg.add(g.Edge(e.source, e.target, lab2))
+                    cov.hit("parallel-edges")
     # AuxData at IR and module level
     if with_aux:
         env = AuxEnv(g, ir, rng)
